@@ -172,6 +172,8 @@ bool spec_valid(const ProcSpec& s) {
     case PK_FIR_C:
     case PK_FFTFIR_R:
     case PK_FFTFIR_C:
+    case PK_FFTFIR_CTAPS_RIN:
+    case PK_FFTFIR_RTAPS_CIN:
         return in(p[0], 2, 5000);
     case PK_DECIM:
     case PK_INTERP:
